@@ -78,6 +78,7 @@ func checkC19(c *Ctx) {
 	checkV2TreeRules(c, l)
 	checkV2RemoveLookup(c, l)
 	checkV2IterTable(c, l)
+	checkEvictGuards(c, l)
 	c.rule("SIB-memoize", "FindMemoized (shard lookup for lazily loaded nodes) agrees with Find", 2)
 	checkV2Memoize(c, l, "SIB-memoize")
 
@@ -347,4 +348,89 @@ func hashIsNilGuard(x ssa.Value, at ssa.Instruction, fHash *types.Var) bool {
 		}
 	}
 	return false
+}
+
+// checkEvictGuards: a leaf written in this version is handed back to the node
+// pool by saveLeaves whenever the height filter is on; deepHash must have
+// detached that leaf from its parent under the SAME condition.  The two
+// effects are compared by the set of Tree options their controlling
+// conditions read: if the detach is additionally narrowed (eviction depth,
+// recursion depth), some parents keep pointing at nodes the pool has reset and
+// will hand out again.
+func checkEvictGuards(c *Ctx, l *Loaded) {
+	const R = "SIB-evict-guards"
+	c.rule(R, "leaf detach in deepHash and leaf recycling in saveLeaves are controlled by the same tree options", 1)
+	dh := l.Func("", "*Tree.deepHash")
+	sl := l.Func("", "*sqliteBatch.saveLeaves")
+	ret := l.Func("", "*Tree.returnNode")
+	treeT := l.NamedType("", "Tree")
+	fLeft, fRight := l.Field("", "Node", "leftNode"), l.Field("", "Node", "rightNode")
+	if dh == nil || sl == nil || ret == nil || treeT == nil || fLeft == nil || fRight == nil {
+		c.anchorMissing(R, "deepHash / saveLeaves / returnNode / Tree")
+		return
+	}
+	optsOf := func(fn *ssa.Function, at ssa.Instruction) map[string]bool {
+		out := map[string]bool{}
+		var collect func(v ssa.Value, d int)
+		collect = func(v ssa.Value, d int) {
+			if d > 6 || v == nil {
+				return
+			}
+			switch x := stripTrivial(v).(type) {
+			case *ssa.UnOp:
+				if fa, ok := x.X.(*ssa.FieldAddr); ok && x.Op == token.MUL {
+					if n := derefNamed(fa.X.Type()); n != nil && n.Obj() == treeT.Obj() {
+						if b, isB := x.Type().Underlying().(*types.Basic); isB && b.Info()&(types.IsInteger|types.IsBoolean) != 0 {
+							out[fieldName(fa.X.Type(), fa.Field)] = true
+						}
+					}
+					return
+				}
+				collect(x.X, d+1)
+			case *ssa.BinOp:
+				collect(x.X, d+1)
+				collect(x.Y, d+1)
+			case *ssa.Convert:
+				collect(x.X, d+1)
+			case *ssa.Parameter:
+				if b, isB := x.Type().Underlying().(*types.Basic); isB && b.Info()&types.IsInteger != 0 {
+					out["param:"+x.Name()] = true
+				}
+			}
+		}
+		for _, b := range fn.Blocks {
+			iff := ifOf(b)
+			if iff == nil {
+				continue
+			}
+			for si := range b.Succs {
+				if edgeDominates(b, si, at.Block()) {
+					collect(iff.Cond, 0)
+				}
+			}
+		}
+		return out
+	}
+	join := func(m map[string]bool) string { return strings.Join(sortedKeys(m), ",") }
+	var detach, recycle map[string]bool
+	allInstrs(dh, func(in ssa.Instruction) {
+		if st, ok := in.(*ssa.Store); ok && isStoreToField(st, fLeft, fRight) && isNilConst(stripTrivial(st.Val)) {
+			o := optsOf(dh, st)
+			if detach == nil || len(o) > len(detach) {
+				detach = o
+			}
+		}
+	})
+	for _, in := range callsIn(sl, predStatic(ret)) {
+		o := optsOf(sl, in)
+		if recycle == nil || len(o) < len(recycle) {
+			recycle = o
+		}
+	}
+	if detach == nil || recycle == nil {
+		c.anchorMissing(R, "leaf detach stores in deepHash / returnNode calls in saveLeaves")
+		return
+	}
+	c.decide(R, "deepHash detaches a written leaf whenever saveLeaves recycles it", l.pos(dh.Pos()), join(detach) == join(recycle),
+		"both controlled by {"+join(recycle)+"}", "deepHash detaches leaves under {"+join(detach)+"} but saveLeaves recycles them under {"+join(recycle)+"}: where the detach does not happen the parent keeps a pointer to a node the pool resets and hands out again")
 }
